@@ -3,6 +3,8 @@
 mod builder;
 pub mod iter;
 mod mapper;
+#[cfg(daachorse_verif)]
+mod verif;
 
 use core::mem;
 use core::num::NonZeroU32;
@@ -727,6 +729,8 @@ impl<V> CharwiseDoubleArrayAhoCorasick<V> {
                 if state_id == ROOT_STATE_IDX {
                     return ROOT_STATE_IDX;
                 }
+                #[cfg(daachorse_verif)]
+                crate::verif::tick();
                 state_id = self.states.get_unchecked(usize::from_u32(state_id)).fail();
             }
         } else {
@@ -747,6 +751,8 @@ impl<V> CharwiseDoubleArrayAhoCorasick<V> {
                 if state_id == ROOT_STATE_IDX {
                     return ROOT_STATE_IDX;
                 }
+                #[cfg(daachorse_verif)]
+                crate::verif::tick();
                 let fail_id = self.states.get_unchecked(usize::from_u32(state_id)).fail();
                 if fail_id == DEAD_STATE_IDX {
                     return ROOT_STATE_IDX;
